@@ -47,6 +47,8 @@ def check(ctx):
              ("sv", "module f; wire v; assign v = a[b[c[d[e[f[g[h[i[j[k[l[m[n[0]]]]]]]]]]]]]]; endmodule\n")]
     # include chains 40 deep through files shared by all threads (whatever is held per open file is held 40 times per call)
     jobs += [("pp", '`include "ch1.svh"\nafter_chain\n'), ("sv", 'module ic;\n`include "ch1.svh"\nendmodule\n')]
+    # file entry points: a library map named by an absolute path, sources and include paths named relative to the working directory
+    jobs += [("libf", "libs/lib.map"), ("svf:da", "rel_top.sv"), ("ppf:db", "rel_top.sv"), ("libf", "libs/lib2.map"), ("svf", "rel_plain.sv")]
     jobs += r.sample(pool, 6 if q else 60)
     for _ in range(3 if q else 30):
         g = ppgen.Gen(r, includes=False)
@@ -56,6 +58,11 @@ def check(ctx):
         c = Case("t%d" % n)
         c.add("file", hx("da/cfg.svh"), hx("`define WIDTH 8\n"))
         c.add("file", hx("db/cfg.svh"), hx("`define WIDTH 16\n"))
+        c.add("file", hx("libs/lib.map"), hx("".join("library l%d \"src%d/*.v\";\n" % (i, i) for i in range(400)) + 'include "more.map";\n'))
+        c.add("file", hx("libs/lib2.map"), hx("".join("library k%d \"k%d/*.v\" -incdir \"inc%d\";\n" % (i, i, i) for i in range(300))))
+        c.add("file", hx("libs/more.map"), hx("library more \"m/*.v\";\n"))
+        c.add("file", hx("rel_top.sv"), hx('module rel;\n`include "cfg.svh"\nwire [`WIDTH-1:0] w;\nendmodule\n'))
+        c.add("file", hx("rel_plain.sv"), hx('module plain;\n`include "da/cfg.svh"\nwire [`WIDTH-1:0] w;\nendmodule\n'))
         for j in range(1, 41):
             c.add("file", hx("ch%d.svh" % j), hx("wire chain_%d;\n" % j + ('`include "ch%d.svh"\n' % (j + 1) if j < 40 else "")))
         for k, s in jobs:
@@ -66,7 +73,7 @@ def check(ctx):
     # for one another) ends the process, which is a result no call has alone
     impl = {}
     for c in cases:
-        impl.update(run_harness("threads", [c], "c19", timeout=(150 if q else 1500)))
+        impl.update(run_harness("threads", [c], "c19", timeout=(400 if q else 1800)))
     bad = None
     for c in cases:
         lines = impl.get(c.id) or []
